@@ -23,6 +23,10 @@ import traceback
 
 HERE = os.path.dirname(os.path.dirname(os.path.abspath(__file__)))
 
+# VQ_OUT redirects evidence/, witness/ and .work/ (used when checks are run against scratch
+# copies of the repository, so that committed evidence only ever comes from /repo itself)
+OUT = os.environ.get("VQ_OUT", HERE)
+
 PROPS = [f"C{i:02d}" for i in range(1, 21)]
 
 
@@ -152,7 +156,7 @@ def drive(pid: str, tier: str, seed: int, shards: int | None, keep: bool = False
     kf = load_known_findings()
     findings = kf.get("findings", [])
     lines, new_viol, known_hits = [], [], {}
-    wdir = os.path.join(HERE, "witness", pid)
+    wdir = os.path.join(OUT, "witness", pid)
     if M:
         seen = set()
         for v in M["violations"]:
@@ -225,8 +229,8 @@ def drive(pid: str, tier: str, seed: int, shards: int | None, keep: bool = False
         "wall_s": round(wall, 2),
         "violations": int(sum(c for _, c in new_viol)),
     }
-    os.makedirs(os.path.join(HERE, "evidence"), exist_ok=True)
-    with open(os.path.join(HERE, "evidence", f"{pid}.json"), "w") as f:
+    os.makedirs(os.path.join(OUT, "evidence"), exist_ok=True)
+    with open(os.path.join(OUT, "evidence", f"{pid}.json"), "w") as f:
         json.dump(ev, f, indent=1, sort_keys=False)
         f.write("\n")
 
